@@ -199,6 +199,29 @@ def hint_theorem(base, keys, cms):
     return info
 
 
+def merge_theorem(base, keys, cms):
+    """C03 on the design of FlatSet::merge: TLC evaluates MergeTheorem over every pair of subsets of `keys` and every pair
+    of comparator states, and must REFUTE the pinned tree's assumption (single pass algorithm whatever the comparator objects)"""
+    d = workdir(base, 'smc_merge')
+    done = os.path.join(d, 'done.json')
+    if os.path.exists(done):
+        return json.load(open(done))
+    copy_specs(d)
+    model = dict(KS=1, SFlav=['flat'], SN=[0], STypeId=[1], SCmpType=[1], transparent=[False])
+    params = dict(Keys=list(keys), Cms=list(cms), Its=['ptr'], RLens=[0], MaxLen=0, Ops='{"ctorDefault"}')
+    write_mc(d, 'MC_merge', 'MCSets', _defs(model, params), _cfg_lines(model, params, dict(lines=['INVARIANT MergeInv', 'CHECK_DEADLOCK FALSE'])))
+    rc, out, dt = tlc(d, 'MC_merge', 'MC_merge.cfg', workers=4, timeout=1800, heap='6g')
+    if rc != 0 or 'No error has been found' not in out:
+        raise InfraError('MODEL-ERROR: MergeTheorem does not hold on the design\n' + out[-3000:])
+    write_mc(d, 'MC_mergeF13', 'MCSets', _defs(model, params), _cfg_lines(model, params, dict(lines=['INVARIANT MergeF13Inv', 'CHECK_DEADLOCK FALSE'])))
+    rc2, out2, dt2 = tlc(d, 'MC_mergeF13', 'MC_mergeF13.cfg', workers=4, timeout=1800, heap='6g')
+    if 'MergeF13Inv is equal to FALSE' not in out2:
+        raise InfraError('MODEL-ERROR: the pinned merge (F13) is not refuted by TLC: the theorem is vacuous\n' + out2[-2000:])
+    info = dict(instances=len(cms) * len(cms) * (2 ** len(keys)) ** 2, wall=dt + dt2, keys=list(keys), cms=list(cms), refuted_for='F13')
+    json.dump(info, open(done, 'w'))
+    return info
+
+
 def build_set_harness(base, cfg):
     d = workdir(base, 'bin')
     out = os.path.join(d, cfg.name)
